@@ -157,6 +157,8 @@ def grows(p):
 
 
 def check(ctx):
+    from .ctors import check_table
+    check_table(ctx, "C04", "R04.2")
     F = ctx.F
     # ================= R04.1 =================================================
     # the helper is_full(): remembered so that `if self.is_full()` in push is read as the comparison it stands for
